@@ -267,10 +267,15 @@ def check_maps(res, xb_reg, xb_core, M, N, rng, mapfun, key0, origin):
                 and np.array_equal(Nl, np.eye(n_d)))
     kreg = dict(key, mech='detailed_balance', pair=cls,
                 where='regular_cells')
-    if is_ident and cls != 'equal':
+    kint = dict(key, mech='integral', pair=cls)
+    c['ident_unequal'] = bool(is_ident and cls != 'equal')
+    if c['ident_unequal']:
+        # exact identity returned although the boundaries differ
+        res.tag('identity_returned_for_unequal_meshes')
         kreg = dict(key, mech='identity_for_unequal_meshes',
                     where='regular_cells')
         key_sc = dict(key_sc, mech='identity_for_unequal_meshes')
+        kint = dict(key, mech='identity_for_unequal_meshes')
     if n_g > 1:
         r = float(np.max(np.abs(D[:, :-1])))
         i, j = np.unravel_index(np.argmax(np.abs(D[:, :-1])), D[:, :-1].shape)
@@ -307,7 +312,7 @@ def check_maps(res, xb_reg, xb_core, M, N, rng, mapfun, key0, origin):
                   float(np.sum(w_d * md) - np.sum(w_g * ug[:n_g])),
                   float(np.sum(w_g * np.abs(ug[:n_g]))), TOL,
                   'perimeter integral changed by the gap->duct map',
-                  dict(key, mech='integral', map='gap2duct', pair=cls))
+                  dict(kint, map='gap2duct'))
         vd = rng.uniform(300.0, 1200.0, n_d)
         if t == 2:              # hot duct cells next to the top corner
             vd[:] = 600.0
@@ -323,7 +328,7 @@ def check_maps(res, xb_reg, xb_core, M, N, rng, mapfun, key0, origin):
                   dict(key_sc, map='duct2gap',
                        confined_to_split_corner_row=bool(confined))
                   if (confined and abs(r) > TOL * abs(tot))
-                  else dict(key, mech='integral', map='duct2gap', pair=cls,
+                  else dict(kint, map='duct2gap',
                             confined_to_split_corner_row=bool(confined)),
                   {'halves': [h0, h5]})
 
@@ -646,7 +651,10 @@ def run_hooked(case, res, P, feats, rng, n_steps):
         spread = hi - lo
         res.stat('U3_input_spread_rel', spread / max(abs(hi), 1e-300))
         k = {'mech': 'integral', 'dir': direction, 'pair': cls}
-        if direction == 'duct2gap' and asym:
+        if c.get('ident_unequal'):
+            k = {'mech': 'identity_for_unequal_meshes', 'dir': direction,
+                 'origin': 'sweep'}
+        elif direction == 'duct2gap' and asym:
             k = {'where': 'split_top_corner_gap_cell', 'halves': 'unequal',
                  'map': 'duct2gap', 'origin': 'sweep',
                  'wider_than_duct_corner':
